@@ -276,6 +276,9 @@ func (p *printer) expr1(e Expr) {
 			}
 			p.expr(a)
 		}
+		if len(n.Args) > 0 && p.trailingComma() {
+			p.emit(",")
+		}
 		p.emit(")")
 	case ArrLit:
 		p.emit("[")
@@ -284,6 +287,9 @@ func (p *printer) expr1(e Expr) {
 				p.emit(",")
 			}
 			p.expr(a)
+		}
+		if len(n.Elems) > 0 && p.trailingComma() {
+			p.emit(",")
 		}
 		p.emit("]")
 	case ObjLit:
@@ -298,10 +304,18 @@ func (p *printer) expr1(e Expr) {
 				p.expr(n.Vals[i])
 			}
 		}
+		if len(n.Keys) > 0 && p.trailingComma() {
+			p.emit(",")
+		}
 		p.emit("}" + p.st.close())
 	default:
 		p.emit("<?>")
 	}
+}
+
+// trailingComma: in the varied layout a list may end in a comma (one argument or element per line)
+func (p *printer) trailingComma() bool {
+	return !p.st.Marks && p.st.Layout == NewlineLayout && p.st.Rng != nil && p.st.Rng.Intn(4) == 0
 }
 
 // isPostfixLike: member access, call, index and postfix chain left to
